@@ -987,6 +987,9 @@ def _code_to_slice__arglikes(
 
     if codea_cls in ASTS_LEAF_EXPR:  # if putting expr as one then should be passed through as such
         if codea is not code:  # is FST
+            if code.parent:  # not code.is_root
+                raise ValueError('expecting root node')
+
             fst_ = code
             ast_ = codea
 
@@ -999,6 +1002,9 @@ def _code_to_slice__arglikes(
 
     elif codea_cls is keyword:  # if putting keyword as one then should be passed through as such, could do as one below with code_as__arglikes(coerce=True) but this is more optimal
         if codea is not code:  # is FST
+            if code.parent:  # not code.is_root
+                raise ValueError('expecting root node')
+
             fst_ = code
             ast_ = codea
 
@@ -1126,6 +1132,9 @@ def _code_to_slice__withitems(
 
     if codea_cls in ASTS_LEAF_EXPR:  # if putting expr as one then should be passed through as such
         if codea is not code:  # is FST
+            if code.parent:  # not code.is_root
+                raise ValueError('expecting root node')
+
             fst_ = code
             ast_ = codea
 
@@ -1304,6 +1313,9 @@ def _code_to_slice__expr_arglikes(
 
     if codea_cls in _ASTS_LEAF_EXPR_NO_TUPLE:  # if putting expr as one then most should be passed through as such except for Tuple, which may need arglike expressions inside it fixed
         if codea is not code:  # is FST
+            if code.parent:  # not code.is_root
+                raise ValueError('expecting root node')
+
             fst_ = code
             ast_ = codea
 
